@@ -16,6 +16,7 @@ A node is a dict:
                         (<pVariable Name="V0.Max">N3</pVariable>: the variable stands for a sub-property of N3)
   on, off               Boolean
   entries               Enumeration: list of entry values
+  formula               swiss knives: "1" (default) or "1 % 0" (integer remainder by zero: evaluation fails, InvalidData)
   mapped, init          register kinds: address inside the device memory?  initial decoded content
 """
 import struct
@@ -116,7 +117,7 @@ def node_xml(g, i):
         s += X.el("FormulaTo", "FROM") + X.el("FormulaFrom", "TO") + X.el("pValue", nm(n["pvalue"]))
     elif k in ("IntSwissKnife", "SwissKnife"):
         s += var_xml(n)
-        s += X.el("Formula", "1")
+        s += X.el("Formula", n.get("formula") or "1")
     elif k in REG_KINDS:
         s += X.el("Address", addr_of(g, i)) + X.el("Length", REG_LEN[k])
         if n["access"]:
@@ -271,6 +272,8 @@ class Sim:
 
     def num(self, n):
         """numeric value of a node (integer / float / enumeration kinds)"""
+        if n >= len(self.g):
+            raise EvalError(32)      # a reference to a node that does not exist
         nd = self.g[n]
         k = nd["kind"]
         if k in ("Integer", "Float", "Enumeration"):
@@ -286,8 +289,10 @@ class Sim:
         if k in ("IntSwissKnife", "SwissKnife"):
             if any(a not in ("", ".Value") for a in (nd.get("accs") or [])):
                 raise Unsupported()          # Min / Max / Inc / Enum of the variables are not simulated
-            for m in nd["vars"]:             # the formula is the constant 1, but every variable is collected first
+            for m in nd["vars"]:             # the formula is a constant, but every variable is collected first
                 self.var_value(m)
+            if nd.get("formula") == "1 % 0":
+                raise EvalError(33)          # integer remainder by zero
             return 1
         if k in ("IntConverter", "Converter"):
             raise Unsupported()              # formulas over pValue: not simulated
@@ -329,6 +334,8 @@ class Sim:
         raise EvalError(32)
 
     def truth(self, n):
+        if n >= len(self.g):
+            raise EvalError(32)
         k = self.g[n]["kind"]
         if k == "Boolean":
             return self.boolean(n)
@@ -418,6 +425,24 @@ class Spec:
             return dflt
         return self.sim.truth(ref)
 
+    # --- "the first controlling node that fails to evaluate, in the order pIsImplemented, pIsAvailable,
+    #      pIsLocked, makes the query fail with that error; nothing after a 'no' is consulted"
+    def base_outcome(self, n, write):
+        """-> ("err", cls) | False | True  (True: the base conditions hold, the rest of the node decides)"""
+        nd = self.g[n]
+        order = [("impl", True), ("avail", True)] + ([("lock", False)] if write else [])
+        for ref, want in order:
+            if nd[ref] is None:
+                continue
+            try:
+                if self.sim.truth(nd[ref]) != want:
+                    return False
+            except EvalError as e:
+                return ("err", e.cls)
+        if write:
+            return nd["imposed"] != "RO"
+        return nd["imposed"] != "WO"
+
     # --- "every controlling node and value source reachable from n evaluates, references are well-kinded"
     def node_refs(self, n):
         nd = self.g[n]
@@ -470,6 +495,8 @@ class Spec:
     def evaluable(self, n):
         if not hasattr(self, "ec"):
             self.ec = {}
+        if n >= len(self.g):
+            return False
         if n not in self.ec:
             self.ec[n] = self.node_ok(n) and all(self.evaluable(m) for m in self.node_refs(n))
         return self.ec[n]
